@@ -197,7 +197,5 @@ func c03Digest(checkpoint []byte) []byte {
 	return crypto.Keccak256(append([]byte("\x19Ethereum Signed Message:\n32"), checkpoint...))
 }
 
-var VerifEntries = map[string]func(){
-	"VerifC03_SkywayClaims": VerifC03_SkywayClaims,
-	"VerifC03_SkywayOwners": VerifC03_SkywayOwners,
-}
+var _ = vEntry("VerifC03_SkywayClaims", VerifC03_SkywayClaims)
+var _ = vEntry("VerifC03_SkywayOwners", VerifC03_SkywayOwners)
